@@ -106,6 +106,8 @@ func c12(c *Ctx) {
 	c.Count(p75+"Pop", Calls(walk), 1, 1)
 	c.Reject(walk, Calls(walk), "!empty(&$r.q)", "call($2)($r,$0)")
 	c.Guard(walk, CallsOfValue("$2"), "!empty(&$r.q)")
+	// the recursion shares (and overwrites) the scratch slice tmp: the nodes it descends into are taken from the kids list, never from *tmp
+	c.ArgNotFrom(walk, Calls(walk), 0, "the scratch slice *tmp, which the recursive calls overwrite", IsTerm("*$1"))
 	c.Reject(p75+"Push", Calls("(http2.FrameWriteRequest).StreamID"), "isControl($0)")
 	c.Has(p75+"Push", Calls(push).ArgIs(0, "&φ($r.nodes[StreamID($0)]|&$r.root).q").ArgIs(1, "$0"))
 	c.Count(p75+"Push", Calls(push), 1, 1)
@@ -123,8 +125,11 @@ func c12(c *Ctx) {
 	consumeSplit(c, Consume)
 	// non-DATA and empty DATA requests are returned whole
 	c.Reject(Consume, Calls("(*http2.outflow).take"), "len($r.write.(*http2.writeData)#0.p) == 0")
-	c.Reject(Consume, RetConst(2, "2"), "len($r.write.(*http2.writeData)#0.p) <= φ($r.stream.sc.maxFrameSize|φ($0|available(&$r.stream.flow)))")
-	c.Reject(Consume, Union(Calls("(*http2.outflow).take"), RetConst(2, "2")), "φ($r.stream.sc.maxFrameSize|φ($0|available(&$r.stream.flow))) <= 0")
+	// the byte bound is named by its role (the amount taken where the request is split), not by the expression computing it
+	if bound, ok := hsConsumeBound(c, Consume); ok {
+		c.Reject(Consume, RetConst(2, "2"), "len($r.write.(*http2.writeData)#0.p) <= "+bound)
+		c.Reject(Consume, Union(Calls("(*http2.outflow).take"), RetConst(2, "2")), bound+" <= 0")
+	}
 	c.Has(Consume, RetConst(2, "0"))
 	// whole-request results return the receiver itself
 	c.Count(Consume, RetConst(2, "1").Where("first result is the request itself", func(in ssa.Instruction) bool {
@@ -157,6 +162,9 @@ func c12(c *Ctx) {
 	c.Guard(shift, StoreAs("$r.currQueue = $r.nextQueue"), "$r.currPos >= len($r.currQueue)")
 	c.Guard(shift, StoreAs("$r.nextQueue = $r.currQueue[:0]"), "$r.currPos >= len($r.currQueue)")
 	c.Guard(shift, StoreAs("$r.currPos = 0"), "$r.currPos >= len($r.currQueue)")
+	// ... and the converse: an exhausted currQueue is always swapped before the element is read (a test that lets
+	// currPos == len(currQueue) through reads past the end)
+	c.HsPassThroughUnder(shift, []string{"$r.currPos >= len($r.currQueue)"}, StoreAs("$r.currQueue = $r.nextQueue"))
 	c.Has(shift, StoreAs("$r.currPos = ($r.currPos+1)"))
 	c.Count(shift, StoresTo("$r.currPos"), 2, 2)
 	c.Has(shift, RetTerm(0, "$r.currQueue[$r.currPos]"))
